@@ -57,4 +57,20 @@ class C17(MetaBase):
         return MetaBase.model_term(self, c)
 
 
+class C17Release(C17):
+    """accessors without overflow checks: release build of the harness, model with ovf = false"""
+    release = True
+    ovf = "false"
+
+    def gen(self, rng, tier):
+        cases = self.gen_docs(rng, 1500)
+        for c in cases:
+            c.kind = "release-" + c.kind
+        return cases
+
+    def corpus(self):
+        return []
+
+
 PROP = C17()
+PROP.release_parts = [C17Release()]
